@@ -274,6 +274,7 @@ fn in_clip(c: [f32; 4], eps: f64) -> Option<bool> {
 fn check_perspective(i: u64, r: &mut Report) {
     let focals = [0.25f32, 0.5, 1.0, 2.0, 8.0];
     let aspects = [0.5f32, 1.0, 4.0 / 3.0, 2.35];
+    // (indices beyond the 80 base combinations re-use the tables with a fractional perturbation below)
     let nf = [(0.1f32, 100.0f32), (1.0, 2.0), (1.0, 1000.0), (0.01, 10.0)];
     let (f, a, (near, far)) = (focals[(i % 5) as usize], aspects[(i / 5 % 4) as usize], nf[(i / 20 % 4) as usize]);
     let m = perspective(f, a, near..far);
